@@ -111,9 +111,10 @@ Fixpoint listing_imports (ms : list module) (is_ : list importdecl) (acc : list 
         match find_mod ms (i_from i) with
         | None => None
         | Some fm =>
+            (* after the repair "fix: get_visible_rules lists re-exported rules": every rule of every module is a candidate *)
             listing_imports ms rest
               (fold_left (fun a r => if exports_rule fm r && pattern_matches (i_pat i) r && negb (mem_str r a)
-                                     then a ++ [r] else a) (m_rules fm) acc)
+                                     then a ++ [r] else a) (flat_map m_rules ms) acc)
         end
       else listing_imports ms rest acc
   end.
@@ -276,17 +277,6 @@ Definition spec_listing (ms : list module) (R : list str) (n : str) : sx :=
   | Some _ => L (map (fun r => sxB (N.eqb (spec_visible ms r n) 1 && owned_somewhere ms r)) R)
   end.
 
-(** what the code's listing computes: only rules OWNED by the source module (misses re-exports) *)
-Definition strict_listing (ms : list module) (R : list str) (n : str) : sx :=
-  match find_mod ms n with
-  | None => L [A 2]
-  | Some m => L (map (fun r => sxB (mem_str r (m_rules m) ||
-                   existsb (fun i => rule_import i &&
-                                match find_mod ms (i_from i) with
-                                | Some fm => mem_str r (m_rules fm) && exports_rule fm r && pattern_matches (i_pat i) r
-                                | None => false end) (m_imports m))) R)
-  end.
-
 Definition spec_step (ms : list module) (o : op) : list module * bool :=
   match o with
   | Import to from t pat re =>
@@ -300,8 +290,8 @@ Definition spec_step (ms : list module) (o : op) : list module * bool :=
   | _ => let '(g', res) := step {| mods := ms; graph := [] |} o in (mods g', res)
   end.
 
-(** expected observation (graph = declared edges), with either listing *)
-Definition spec_observe (strict : bool) (U R : list str) (ms : list module) (res : bool) : sx :=
+(** expected observation (graph = declared edges) *)
+Definition spec_observe (U R : list str) (ms : list module) (res : bool) : sx :=
   L [sxB res;
      L (map (fun n => match find_mod ms n with
                       | None => L [sxB false; L []; L []]
@@ -309,9 +299,9 @@ Definition spec_observe (strict : bool) (U R : list str) (ms : list module) (res
                                      L (map (fun n2 => sxB (mem_str n2 (map i_from (m_imports m)))) U)]
                       end) U);
      L (map (fun n => L (map (fun r => sxN (spec_visible ms r n)) R)) U);
-     L (map (fun n => if strict then strict_listing ms R n else spec_listing ms R n) U)].
+     L (map (fun n => spec_listing ms R n) U)].
 
-(** verdict: 1 ok; 2 = the only deviation is a listing that misses re-exported rules; 0 otherwise.
+(** verdict: 1 ok; 0 otherwise (the former class 2, a listing that misses re-exported rules, was repaired in /repo).
     Acyclicity of the declared relation is part of the verdict. *)
 Fixpoint ok_from (U R : list str) (ms : list module) (ops : list op) (os : list sx) (worst : Z) : Z :=
   match ops, os with
@@ -319,8 +309,7 @@ Fixpoint ok_from (U R : list str) (ms : list module) (ops : list op) (os : list 
   | o :: r, ob :: orr =>
       let '(ms', res) := spec_step ms o in
       if negb (decl_acyclic ms') then 0%Z
-      else if sx_eqb (spec_observe false U R ms' res) ob then ok_from U R ms' r orr worst
-      else if sx_eqb (spec_observe true U R ms' res) ob then ok_from U R ms' r orr 2%Z
+      else if sx_eqb (spec_observe U R ms' res) ob then ok_from U R ms' r orr worst
       else 0%Z
   | _, _ => 0%Z
   end.
